@@ -27,6 +27,7 @@ func (o Obligation) Key() string { return o.Rule + " " + o.Construct }
 
 // Ctx is the state of one property check.
 type Ctx struct {
+	derefVia    map[ssa.Instruction]ssa.Value
 	outcomeBusy map[*ssa.Function]bool
 	listBusy    map[*ssa.Phi]bool
 	pkgIters    []string
